@@ -26,6 +26,7 @@ import numpy
 class Exc:
     def __init__(self, e):
         self.name = type(e).__name__
+        self.msg = str(e)[:100]
 
     def __repr__(self):
         return f"Exc({self.name})"
